@@ -20,6 +20,7 @@ import LinVerif.Lemmas.C14BufAlias
 import LinVerif.Lemmas.C14StreamExt
 import LinVerif.Lemmas.C14SnappyReuse
 import LinVerif.Lemmas.C14Rejected
+import LinVerif.Lemmas.C14StreamFree
 
 namespace LinVerif.Props.C14
 open LinVerif LinVerif.Bits LinVerif.Varint
@@ -1440,5 +1441,44 @@ theorem unmarshal_commit_on_success_is_stale :
 end Neg
 
 end RejectedInput
+
+/-! ## 12. `stream.Reader` under free-form read sequences, error branches included (Round 9) -/
+
+section StreamFreeForm
+open LinVerif.Stream
+
+/-- **stream_reader_free_form_history.** A reader on ANY buffer, after ANY sequence of calls (numeric reads, varints
+that overflow or run into EOF, `ReadSlice`/`ReadBytes` with negative or too large lengths, `ReadUntil`, reads under a
+pending error, `ReadAt`, `Reset`): the unread part is a suffix of the current buffer (so `Position()` lies inside
+it). For every FORWARD-only continuation from any such state: the buffer is untouched, what was consumed is a prefix
+of what was unread, and when every call is slice-returning the byte strings handed out, concatenated, are exactly
+that prefix — nothing skipped, handed out twice or reordered, whichever errors occurred in between. -/
+theorem stream_reader_free_form_history (data : List Nat) (history forward : List RdOp)
+    (hf : ∀ op ∈ forward, op.sequential = true) :
+    let r : Stream.Reader := ((Stream.Reader.fresh data).run history).2
+    r.Wf ∧ r.position ≤ r.orig.length ∧
+    (∃ c, c ++ (r.run forward).2.rem = r.rem) ∧ (r.run forward).2.orig = r.orig ∧
+    ((∀ op ∈ forward, op.returnsBytes = true) → (r.run forward).1.flatten ++ (r.run forward).2.rem = r.rem) := by
+  intro r
+  have hw : r.Wf := Stream.Reader.run_wf history _ ⟨[], by simp [Stream.Reader.fresh]⟩
+  obtain ⟨h1, h2, h3⟩ := Stream.Reader.run_conserves forward r hf
+  exact ⟨hw, by simp [Stream.Reader.position], h1, h2, h3⟩
+
+/-- `ReadAt(p)` (`SeekStart` = `ReadAt(0)`) with `p` inside the buffer repositions from ANY state — pending error, EOF,
+mid-buffer —: the error is cleared, the unread part is the buffer from `p` on, `Position() = p`. -/
+theorem stream_reader_reposition_from_any_state (r : Stream.Reader) (p : Nat) (hp : p ≤ r.orig.length) :
+    r.readAt p = { orig := r.orig, rem := r.orig.drop p, err := .none } ∧
+    (r.readAt p).position = p ∧ (r.readAt p).unreadSlice = r.orig.drop p :=
+  Stream.Reader.readAt_repositions r p hp
+
+/-- non-vacuity: a varint that overflows, a negative length, a read under the pending error, a short read into EOF
+and a read at EOF, on 13 bytes: the slices handed out are `[]`, `[]`, then after repositioning `[1, 2]`, `[3]`, `[]` -/
+example :
+    ((Stream.Reader.fresh [255, 255, 255, 255, 255, 255, 255, 255, 255, 255, 1, 7, 8]).run
+      [.uv64, .slice (-1), .slice 1, .at 11, .slice 1, .slice 5, .slice 1]).1 =
+      [[], [], [], [], [7], [8], []] ∧
+    ((Stream.Reader.fresh [1, 2, 3]).run [.slice 2, .bytes 4, .until 9]).1 = [[1, 2], [3], []] := by decide
+
+end StreamFreeForm
 
 end LinVerif.Props.C14
